@@ -48,6 +48,19 @@ def eps_closure_warshall(RN):
     Q = RN[0]
     idx = {q: i for i, q in enumerate(Q)}
     n = len(Q)
+    if n > 150:
+        # cubic; for huge automata the bit-set variant below (rows as Python integers, same recurrence)
+        rows = [1 << i for i in range(n)]
+        for (p, a, q) in RN[2]:
+            if a is EPS and p in idx and q in idx:
+                rows[idx[p]] |= 1 << idx[q]
+        for k in range(n):
+            rk = rows[k]
+            bit = 1 << k
+            for i in range(n):
+                if rows[i] & bit:
+                    rows[i] |= rk
+        return {Q[i]: frozenset(Q[j] for j in range(n) if (rows[i] >> j) & 1) for i in range(n)}
     R = [[i == j for j in range(n)] for i in range(n)]
     for (p, a, q) in RN[2]:
         if a is EPS and p in idx and q in idx:
